@@ -1,7 +1,7 @@
 """C06 — RPC message codec is exact, total and strict (structural clauses)."""
 import re
 
-from analysis import (flow_key, Prov, Guards, fmt, fmt_short, walk, roots, short, canon, lossy_casts, comparison, find_calls, callee_matches,
+from analysis import (emptiness_test, test_edges, flow_key, Prov, Guards, fmt, fmt_short, walk, roots, short, canon, lossy_casts, comparison, find_calls, callee_matches,
                       must_pass, const_int_of, writes_into, _lin_add)
 from aff import Aff, Fact
 from facts import AnchorError, strip_closure
@@ -166,7 +166,7 @@ def r1_r2_r3(ctx):
         if e[0] == "discr" and any(x[0] == "call" and x[1] == R + "RequestId::decode" for x in walk(e[1])):
             names, _ = g.variant_names(bi)
             id_edges += [(bi, tb) for v, tb in t.vals if names.get(v) in ("Continue", "Ok")]
-    empties = bool_pass_edges(g, lambda e: e[0] == "call" and short(e[1]).endswith("slice::is_empty") and fmt_short(e[2][0]) == cname, want_true=True)
+    empties = test_edges(g, emptiness_test, lambda x: fmt_short(x) == cname, want=True)
     for blk, (variant, bodies, arm, line) in sorted(sites.items()):
         label = "%s (type %s)" % ("/".join(bodies), arm)
         for nm, edges, msg in (("header.list", list_edges, "whose outer RLP header is not a list"), ("Ok(RequestId::decode)", id_edges, "with an invalid request id")):
